@@ -98,7 +98,7 @@ Ltac res_ok :=
   first [ left; exact Hr
         | destruct Hr as [<-|Hr]; [right; split; [discriminate | intros [Q|Q]; discriminate Q] | left; exact Hr] ].
 
-Ltac simp_lk := unfold lk; cbn [shs thr glast upd upd_th upd_sh mark_race set_glast set_gleak].
+Ltac simp_lk := unfold lk; cbn [shs thr glast upd upd_th upd_sh mark_race set_glast set_gleak set_alock].
 
 Lemma step_effect t s s' : inv1 s -> step t s = Some s' ->
   exists th th', lget (thr s) t = Some th /\ thr s' = lset (thr s) t th' /\ effect s s' th th' /\ results_ok s th th'.
